@@ -35,6 +35,7 @@ CLAIMED = {
          '(recorded findings). Added: zoned_roundtrip_offset (the read-back value has the written zone id and the '
          'instant wall - P.off z w, single value and one-item list), mixed_utc_zoned_witness (a UTC or floating item in '
          'a list with a zoned item is read in the list zone).',
+         'vDDDLists.from_ical (no zone) and vDDDLists.to_ical are regenerated from the source by tools/py2lean.py and proved equal to the list structure of the hand model (body_vDDDLists_from_ical, body_vDDDLists_to_ical). '
          'Trusted: Lean kernel; tools/extract.py (add names, datetime names); hand model of TZID derivation and '
          'vDatetime.to_ical/from_ical tied by correspondence; provider laws not provable (checked); the seconds<->calendar conversion is proved total and exact on '
          'years 1-9999 (Lemmas/Civil.lean: toDays_ofDays, ofSec_isSome_iff).',
@@ -119,6 +120,7 @@ CLAIMED = {
          'earlier STANDARD tuple, falsy zero searched again in the future), names_resolved (explicit TZNAME verbatim, '
          'generated names pairwise distinct), cache_reparse_idempotent, reparse_position_independent, '
          'reparse_differs_witness.',
+         'The second half of Timezone.get_transitions (everything after transitions.sort()) is regenerated from the source by tools/py2lean.py as a fragment and proved equal to infoGo / dstOffset (body_get_transitions_info). '
          'Trusted: Lean kernel; hand models of _extract_offsets/get_transitions/lookup/cache tied by correspondence on '
          'generated VTIMEZONEs at each onset -1s/0/+1s under both providers; RRULE expansion is dateutil\'s.',
          'DESIGN.md 6/C12'),
@@ -199,6 +201,7 @@ CLAIMED = {
          'in declared order then the rest sorted, invariant under permutation of the keys. upper is abstract with the '
          'single law upper(upper k) = upper k, checked for every code point of the running interpreter.',
          "The ten delegating CaselessDict methods and their keyword defaults are regenerated from the source by tools/py2lean.py and proved equal to the hand model's steps (body_cd_*). "
+         'canonsort_keys (dict comprehension, filtered comprehensions, keyed stable sort) and CaselessDict.__init__ / update / copy are regenerated too and proved equal to canonsort / cdInit / cdUpdate / cdCopy (body_canonsort_keys, body_cd_init, body_cd_init_rekey, body_cd_update, body_cd_copy). '
          'Trusted: Lean kernel; hand model of every CaselessDict method (overridden and inherited) tied by correspondence '
          'against live CaselessDict, Parameters and Component objects (all sequences <= 2, sampled 3, random 30-step); '
          'str.upper idempotence (checked exhaustively each run).',
@@ -237,6 +240,7 @@ CLAIMED = {
          'VTIMEZONE names present, total (never an error); after add-missing every used, known, previously absent id '
          'has exactly one VTIMEZONE, present ones are untouched, unknown ids stay missing, the used set is unchanged, and '
          'a second call changes nothing. Provider knowledge is an abstract predicate.',
+         'Calendar.timezones, get_used_tzids, get_missing_tzids, add_missing_timezones are regenerated from the source by tools/py2lean.py (Python sets as duplicate-free lists, compared sorted) and proved equal to the hand model (body_timezones, body_get_used_tzids, body_get_missing_tzids, body_add_missing_timezones). '
          'Trusted: Lean kernel; hand models of get_used_tzids / get_missing_tzids / add_missing_timezones tied by '
          'correspondence (calendars with used, unused, unknown, duplicate and TZID-less VTIMEZONEs, repeated calls); the '
          'content of a generated VTIMEZONE is C13.',
